@@ -810,15 +810,18 @@ func init() {
 			a, ok1 := args[0].(string)
 			b, ok2 := args[1].(string)
 			if !ok1 || !ok2 {
-				panic(unsupported("IndexString symbolic"))
+				return e.indexTerm(e.bytesOf(caller, site, args[0]), e.bytesOf(caller, site, args[1]))
 			}
 			return e.mkInt(int64(strings.Index(a, b)))
+		},
+		"internal/bytealg.Index": func(e *Exec, th *Thread, caller *Frame, site ssa.Instruction, args []Value) Value {
+			return e.indexTerm(e.bytesOf(caller, site, args[0]), e.bytesOf(caller, site, args[1]))
 		},
 		"strings.Index": func(e *Exec, th *Thread, caller *Frame, site ssa.Instruction, args []Value) Value {
 			a, ok1 := args[0].(string)
 			b, ok2 := args[1].(string)
 			if !ok1 || !ok2 {
-				panic(unsupported("strings.Index symbolic"))
+				return e.indexTerm(e.bytesOf(caller, site, args[0]), e.bytesOf(caller, site, args[1]))
 			}
 			return e.mkInt(int64(strings.Index(a, b)))
 		},
@@ -856,6 +859,17 @@ func init() {
 	intrinsics["(*sync/atomic.Pointer[T]).Store"] = onField(atomicStore)
 	intrinsics["(*sync/atomic.Pointer[T]).Swap"] = onField(atomicSwap)
 	intrinsics["(*sync/atomic.Pointer[T]).CompareAndSwap"] = onField(atomicCAS)
+}
+
+// indexTerm is the index of the first occurrence of b in a (lengths concrete, bytes symbolic) as one
+// branch-free term, -1 if there is none.
+func (e *Exec) indexTerm(a, b []*smt.Term) Value {
+	res := e.term(e.mkInt(-1))
+	for i := len(a) - len(b); i >= 0; i-- {
+		eq, _ := e.strCmp(&SymStr{B: a[i : i+len(b)]}, &SymStr{B: b})
+		res = e.ctx.Ite(eq, e.term(e.mkInt(int64(i))), res)
+	}
+	return res
 }
 
 func (e *Exec) bytesOf(fr *Frame, site ssa.Instruction, v Value) []*smt.Term {
